@@ -485,7 +485,7 @@ package xmpp
 //@   ensures result == prereq(state, feature)
 
 //@ func containsStartTLS
-//@   ensures[C01,C02,C04] ok ==> startTLS.Name.Space == ns.StartTLS && exists i int :: 0 <= i && i < len(features) && features[i] == startTLS
+//@   ensures[C01,C02,C04] ok ==> startTLS.Name.Space == ns.StartTLS && exists i int :: 0 <= i && i < len(features) && features[i] == startTLS && (forall j int :: 0 <= j && j < i ==> features[j].Name.Space != ns.StartTLS)
 //@   ensures[C01,C02,C04] !ok ==> forall i int :: 0 <= i && i < len(features) ==> features[i].Name.Space != ns.StartTLS
 //@   loop 1
 //@     invariant[C01,C02,C04] forall j int :: 0 <= j && j <= rangeindex ==> features[j].Name.Space != ns.StartTLS
@@ -494,6 +494,12 @@ package xmpp
 //@   lockbalanced[C10]
 //@   pure
 //@   ensures result == s.state
+
+// stlsForced: STARTTLS is configured (as the only feature of that namespace:
+// the advertisement cache is keyed by namespace, so two configured features
+// sharing it shadow each other - outside the claim) and could be negotiated in
+// this state.
+//@ spec stlsForced(features []StreamFeature, st SessionState) bool = exists i int :: 0 <= i && i < len(features) && features[i].Name.Space == ns.StartTLS && negotiable(features[i], st) && (forall j int :: 0 <= j && j < len(features) && j != i ==> features[j].Name.Space != ns.StartTLS)
 
 // One round of feature negotiation.
 //@ func negotiateFeatures
@@ -505,6 +511,11 @@ package xmpp
 //@   ghost okMask SessionState = 0
 //@   ghost lastMask SessionState = 0
 //@   ghost lastNS string
+// whether STARTTLS was in the advertisement (recorded when the list has been
+// read; the list does not change afterwards)
+//@   ghost adv bool = false
+//@   callsite containsStartTLS#1
+//@     after: adv = has(list.cache, ns.StartTLS)
 //@   callsite (encoding/xml.TokenReader).Token#*
 //@     preserves s.state, s.negotiated, s.features, s.in.d, list, list.cache, list.req, list.total, features
 //@   callsite decodeStreamErr#1
@@ -532,6 +543,11 @@ package xmpp
 //@   ensures[C01,C02,C04] err == nil && server && mask & Ready != 0 && lastMask & Ready == 0 ==> !list.req
 //@   ensures[C01,C02,C04] err == nil && rw != nil && lastMask & Ready == 0 ==> mask & Ready == 0
 //@   ensures[C01,C02,C04] s.state == old(s.state) | okMask
+// C02: on the first features list of a stream that is not secure, an initiator
+// that has STARTTLS configured and negotiable never reports success without
+// having negotiated something - whatever the list says (empty, STARTTLS
+// missing): there is no clear-text way to Ready past a configured STARTTLS
+//@   ensures[C02] err == nil && !server && first && old(s.state) & Secure == 0 && stlsForced(features, old(s.state)) && !has(list.cache, ns.StartTLS) ==> steps > 0
 //@   loop 1
 //@     invariant list != nil && list.cache != nil
 //@     invariant[C01,C02,C04] s.state & old(s.state) == old(s.state)
@@ -540,7 +556,8 @@ package xmpp
 //@     invariant[C01,C02,C04] forall k string :: has(list.cache, k) ==> exists i int :: 0 <= i && i < len(features) && features[i] == list.cache[k].feature
 //@     invariant[C01,C02,C04] !server ==> forall k string :: has(list.cache, k) ==> list.cache[k].feature.Name.Local != ""
 //@     invariant[C01,C02,C04] !server && doStartTLS ==> first && steps == 0 && startTLS.Name.Space == ns.StartTLS && s.state & Secure == 0 && prereq(s.state, startTLS) && startTLS.Negotiate != nil && !has(s.negotiated, ns.StartTLS) && exists i int :: 0 <= i && i < len(features) && features[i] == startTLS
-//@     invariant[C01,C02,C04] !stepErr
+//@     invariant[C02] !server ==> adv == has(list.cache, ns.StartTLS)
+//@     invariant[C01,C02,C04] !stepErr && steps >= 0 && (steps == 0 ==> okMask == 0 && unchanged(s.negotiated))
 //@     invariant[C01,C02,C04] steps > 0 ==> has(s.negotiated, lastNS)
 //@     invariant[C01,C02,C04] forall k string :: old(has(s.negotiated, k)) ==> has(s.negotiated, k)
 //@     invariant[C01,C02,C04] s.state == old(s.state) | okMask
@@ -652,6 +669,14 @@ package xmpp
 // restart both caches are empty and reader/writer sit on the new connection.
 //@ func negotiateSession
 //@   maypanic
+// the session's state bits are the initial ones plus exactly what the
+// negotiation steps reported (no bit - Secure in particular - is inferred from
+// anything else, such as the kind of connection a step installed); what a
+// negotiator adds to the state itself while it runs is taken as reported
+//@   ghost accMask SessionState = 0
+//@   ghost conn0 net.Conn
+//@   callsite newConn#1
+//@     after: conn0 = ret0
 //@   ghost negErr bool = false
 //@   ghost lastData interface{}
 //@   ghost first bool = true
@@ -668,6 +693,7 @@ package xmpp
 //@     assert[C12] !first && newRW != nil ==> s.in.Info.ID == "" && s.out.Info.ID == "" && s.in.Info.XMLNS == "" && s.in.Info.Lang == ""
 //@     assert[C01,C02,C04] !first ==> arg4 == lastData
 //@     after: negErr = ret3 != nil
+//@     after: accMask = accMask | s.state | ite(ret3 == nil, ret0, 0)
 //@     after: lastData = ret2
 //@     after: first = false
 //@     assert[C01,C02,C04] !first && newRW == nil && inSet ==> has(s.negotiated, anyK)
@@ -685,6 +711,7 @@ package xmpp
 //@   ensures[C01,C02,C04] result0 != nil ==> result0.state & state == state
 //@   loop 1
 //@     invariant[C01,C02,C04] !negErr && s.state & state == state && s.features != nil && s.negotiated != nil
+//@     invariant[C01,C02,C04] s.state == state | accMask | ite(typeof(conn0) == *tls.Conn, Secure, 0)
 //@     invariant[C01,C02,C04] first ==> data == nil
 //@     invariant[C01,C02,C04] !sawFeatures(data) ==> forall k string :: !has(s.negotiated, k)
 //@     invariant[C01,C02,C04] !first ==> data == lastData
